@@ -47,30 +47,8 @@ def rule_confinement(ctx, rep: Report, rid="Q1"):
     i = keys.index("docstring")
     rep.add(rid, "docstring literal is the last argument of the .def(...) call", keys[i - 1] == "py_args_names" and lit.rstrip("@").endswith(")"),
             f"slots {keys}, skeleton ...{lit[-20:]!r}", f"{ci.mod.rel}:{fn.lineno}")
-    # literal construction: ', "' + repr(text)[1:-1].replace('"', r'\\"') + '"'
     body = e.body if isinstance(e, ast.IfExp) else e
-    # ', "' + repr(<text>)[1:-1].replace('"', '\\"') + '"'
-    parts = []
-
-    def flat(x):
-        if isinstance(x, ast.BinOp) and isinstance(x.op, ast.Add):
-            flat(x.left)
-            flat(x.right)
-        else:
-            parts.append(x)
-    flat(body)
-    shape = False
-    if len(parts) == 3 and isinstance(parts[0], ast.Constant) and isinstance(parts[2], ast.Constant):
-        mid = parts[1]
-        opens = parts[0].value.replace(" ", "") == ',"' and parts[2].value == '"'
-        esc = isinstance(mid, ast.Call) and isinstance(mid.func, ast.Attribute) and mid.func.attr == "replace" \
-            and [getattr(a, "value", None) for a in mid.args] == ['"', '\\"']
-        inner = mid.func.value if esc else None
-        sliced = isinstance(inner, ast.Subscript) and unparse(inner.slice).replace(" ", "") == "1:-1"
-        reprd = sliced and isinstance(inner.value, ast.Call) and unparse(inner.value.func) == "repr"
-        shape = opens and esc and sliced and reprd
-    rep.add(rid, "docstring literal: quoted, repr-escaped, double quotes escaped", shape,
-            unparse(body)[:50] + " ... " + unparse(body)[-45:], f"{ci.mod.rel}:{fn.lineno}")
+    _literal_encoding(ctx, rep, rid, ci, fn, body)
     call = next((c for c in ast.walk(body) if isinstance(c, ast.Call) and isinstance(c.func, ast.Attribute)
                  and c.func.attr == "extract_docstring"), None)
     args = [unparse(a) for a in call.args] if call else []
@@ -81,6 +59,140 @@ def rule_confinement(ctx, rep: Report, rid="Q1"):
             len(args) == 4 and args[0] == "self.xml_source" and args[1] == cls_param and callee == [f"{mp}.to_cpp()"]
             and args[3] == f"{mp}.args.names()", f"extract_docstring({', '.join(args)}); method name <- {callee}",
             f"{ci.mod.rel}:{fn.lineno}")
+
+
+def _flat_concat(x, out):
+    if isinstance(x, ast.BinOp) and isinstance(x.op, ast.Add):
+        _flat_concat(x.left, out)
+        _flat_concat(x.right, out)
+    else:
+        out.append(x)
+    return out
+
+
+def _straightline(fn, e):
+    """e with the locals of fn substituted by what the straight-line statements of fn bound them to, in order
+    (a local assigned twice - `body = f(x); body = g(body)` - is followed through both assignments)."""
+    from .prog import clone_expr
+    env = {}
+
+    def subst(x):
+        x = clone_expr(x)
+
+        class T(ast.NodeTransformer):
+            def visit_Name(self, n):
+                if isinstance(n.ctx, ast.Load) and n.id in env:
+                    return clone_expr(env[n.id])
+                return n
+        return T().visit(x)
+    for st in fn.body:
+        if isinstance(st, ast.Assign) and len(st.targets) == 1 and isinstance(st.targets[0], ast.Name):
+            env[st.targets[0].id] = subst(st.value)
+        elif isinstance(st, (ast.If, ast.For, ast.While, ast.Try, ast.With)):
+            for n in ast.walk(st):
+                if isinstance(n, ast.Name) and isinstance(n.ctx, ast.Store):
+                    env.pop(n.id, None)
+    return subst(e)
+
+
+def _is_repr_body(x) -> bool:
+    """repr(<text>)[1:-1]"""
+    return isinstance(x, ast.Subscript) and unparse(x.slice).replace(" ", "") == "1:-1" and isinstance(x.value, ast.Call) \
+        and unparse(x.value.func) == "repr" and len(x.value.args) == 1
+
+
+def _literal_encoding(ctx, rep, rid, ci, fn, body):
+    """The documentation text becomes `"<encoded>"` where <encoded> is decoded by a C++ compiler to the text itself.
+    Python's repr writes unprintable characters below U+0100 as \\xNN; a C++ hex escape has no length limit, so
+    `\\x01` followed by a hex digit is read as one other character.  The encoder therefore has to rewrite those
+    escapes into bounded ones (three-digit octal below 0x80, universal character names above), tokenising every
+    backslash escape so that an escaped backslash followed by `x41` is left alone, and has to escape `"` last."""
+    prog = ctx.prog
+    loc = f"{ci.mod.rel}:{fn.lineno}"
+    parts = _flat_concat(body, [])
+    # shape 1 (inline): ', "' + repr(text)[1:-1].replace('"', '\\"') + '"'
+    if len(parts) == 3 and isinstance(parts[1], ast.Call) and isinstance(parts[1].func, ast.Attribute) and parts[1].func.attr == "replace" \
+            and _is_repr_body(parts[1].func.value):
+        rep.add(rid, "docstring literal: every escape sequence written is read back by C++ as the same character", False,
+                "the literal is repr(text)[1:-1] with only `\"` escaped: repr writes U+0001..U+001F, U+007F..U+00A0 as \\xNN, and C++ "
+                "reads `\\x01` followed by `a` as the single character \\x1a (hex escapes are unbounded): the compiled docstring "
+                "differs from the documentation text, or does not compile (value out of range)", loc)
+        return
+    # shape 2: ', ' + self.<helper>(<text>)
+    if not (len(parts) == 2 and isinstance(parts[0], ast.Constant) and parts[0].value.strip() == "," and isinstance(parts[1], ast.Call)
+            and isinstance(parts[1].func, ast.Attribute) and unparse(parts[1].func.value) in ("self", ci.qual)):
+        raise AnalysisError(f"{loc}: docstring literal is built in a way this rule does not know: {unparse(body)[:80]}")
+    h = prog.find_method(ci, parts[1].func.attr)
+    if h is None:
+        raise AnalysisError(f"{loc}: encoder {parts[1].func.attr} not found")
+    hf = h[1]
+    hp = [a.arg for a in hf.args.args if a.arg != "self"]
+    hloc = f"{h[0].mod.rel}:{hf.lineno}"
+    rets = [r for r in walk_no_nested(hf) if isinstance(r, ast.Return)]
+    if len(rets) != 1 or not hp:
+        raise AnalysisError(f"{hloc}: encoder with {len(rets)} return statements")
+    rparts = _flat_concat(_straightline(hf, rets[0].value), [])
+    quoted = len(rparts) == 3 and all(isinstance(rparts[i], ast.Constant) and rparts[i].value == '"' for i in (0, 2))
+    mid = rparts[1] if len(rparts) == 3 else None
+    esc_q = isinstance(mid, ast.Call) and isinstance(mid.func, ast.Attribute) and mid.func.attr == "replace" and \
+        [getattr(a, "value", None) for a in mid.args] == ['"', '\\"']
+    rep.add(rid, "docstring literal: enclosed in double quotes, `\"` escaped as the last step", quoted and esc_q,
+            f"return {unparse(rets[0].value)[:80]}", hloc)
+    inner = mid.func.value if esc_q else None
+    if isinstance(inner, ast.Call) and isinstance(inner.func, ast.Attribute) and inner.func.attr in ("replace", "translate", "strip", "lstrip", "rstrip"):
+        rep.add(rid, "docstring literal: nothing but the escaping of `\"` is applied to the tokenised escapes", False,
+                f"`{unparse(inner)[-60:]}` rewrites the encoded text again without tokenising its escape sequences: e.g. replacing "
+                "\\' by ' also takes the second backslash of an escaped backslash that stands in front of an apostrophe", hloc)
+        inner = inner.func.value
+        while isinstance(inner, ast.Call) and isinstance(inner.func, ast.Attribute) and inner.func.attr in ("replace", "translate"):
+            inner = inner.func.value
+    sub = inner if isinstance(inner, ast.Call) and unparse(inner.func) in ("re.sub", "sub") and len(inner.args) == 3 else None
+    src_ok = sub is not None and _is_repr_body(sub.args[2]) and unparse(sub.args[2].value.args[0]) == hp[0]
+    rep.add(rid, "docstring literal: starts from repr(text)[1:-1] of the text handed in", src_ok or (inner is not None and _is_repr_body(inner)),
+            f"{unparse(inner)[:80] if inner is not None else None}", hloc)
+    if sub is None:
+        rep.add(rid, "docstring literal: every escape sequence written is read back by C++ as the same character", False,
+                "repr's \\xNN escapes reach the C++ literal unchanged (unbounded hex escapes)", hloc)
+        return
+    # the pattern tokenises every escape: literal backslash, then (x HH | any character)
+    pat = sub.args[0].value if isinstance(sub.args[0], ast.Constant) and isinstance(sub.args[0].value, str) else None
+    tok_ok, why = False, "pattern is not a constant"
+    if pat is not None:
+        import re._parser as sp        # parse only: the pattern is analysed, never run
+        import re._constants as sc
+        tree = list(sp.parse(pat))
+        why = f"pattern {pat!r}"
+        if len(tree) == 2 and tree[0] == (sc.LITERAL, ord("\\")) and tree[1][0] == sc.SUBPATTERN:
+            inner_p = list(tree[1][1][3])
+            if len(inner_p) == 1 and inner_p[0][0] == sc.BRANCH:
+                branches = [list(b) for b in inner_p[0][1][1]]
+                hexb = [b for b in branches if len(b) == 2 and b[0] == (sc.LITERAL, ord("x")) and b[1][0] == sc.MAX_REPEAT
+                        and b[1][1][0] == 2 and b[1][1][1] == 2]
+                anyb = [b for b in branches if len(b) == 1 and b[0][0] == sc.ANY]
+                tok_ok = bool(hexb) and bool(anyb) and branches.index(hexb[0]) < branches.index(anyb[0])
+    rep.add(rid, "docstring literal: the rewrite consumes every backslash escape in turn (\\\\x41 is an escaped backslash plus text, not a hex escape)",
+            tok_ok, why, hloc)
+    # the replacement function: non-x escapes unchanged; x escapes -> %03o below 0x80, \\u%04x otherwise
+    rf = sub.args[1]
+    rfn = next((f for f in ast.walk(hf) if isinstance(f, ast.FunctionDef) and isinstance(rf, ast.Name) and f.name == rf.id), None)
+    fmt_ok, detail = False, "replacement is not a local function"
+    if rfn is not None:
+        consts = [c.value for r in ast.walk(rfn) if isinstance(r, ast.Return) and r.value is not None for c in ast.walk(r.value)
+                  if isinstance(c, ast.Constant) and isinstance(c.value, str)]
+        octal = [c for c in consts if c.rstrip("}").endswith("o")]
+        ucn = [c for c in consts if c.rstrip("}").endswith("x")]
+        bounded_oct = all(c in ("\\%03o", "\\{:03o}") for c in octal)
+        bounded_ucn = all(c in ("\\u%04x", "\\u{:04x}", "\\U%08x", "\\U{:08x}") for c in ucn)
+        guards = [unparse(i.test).replace(" ", "") for r in ast.walk(rfn) if isinstance(r, ast.Return) and isinstance(r.value, ast.IfExp)
+                  for i in [r.value]]
+        split_ok = (not octal) or any(g.endswith("<0x80") or g.endswith("<128") or g.endswith("<=0x7f") or g.endswith("<=127") for g in guards)
+        passthrough = any(isinstance(r.value, ast.Name) or (isinstance(r.value, ast.Call) and "group" in unparse(r.value))
+                          for r in ast.walk(rfn) if isinstance(r, ast.Return) and r.value is not None)
+        fmt_ok = bool(octal or ucn) and bounded_oct and bounded_ucn and split_ok and passthrough
+        detail = f"formats {sorted(set(consts))}, guards {guards}, other escapes passed through {passthrough}"
+    rep.add(rid, "docstring literal: every escape sequence written is read back by C++ as the same character", fmt_ok,
+            detail + ": hex escapes must become fixed-width escapes (three octal digits below 0x80 - above that an octal escape is a "
+            "single byte, not the character - and \\uXXXX otherwise)", hloc)
 
 
 def _vals(fn, e):
@@ -428,3 +540,83 @@ def rule_lookup_provenance(ctx, rep: Report, rid="Q5"):
     rep.add(rid, "extract_docstring:lookup -> filter -> pick overload -> format",
             order == ["get_member_defs", "filter_member_defs", "determine_documenting_index", "get_formatted_docstring"], f"{order}",
             f"{ci.mod.rel}:{ex.lineno}")
+
+
+def rule_docstring_untouched(ctx, rep: Report, rid="Q6"):
+    """Once the literal sits in the binding text, nothing rewrites that text as a whole: a later
+    `text.replace(a, b)` also rewrites occurrences of `a` inside the documentation (a docstring of print() that
+    mentions `self->print`).  A replacement limited to the first occurrence is accepted when, in the template,
+    the replaced text precedes the docstring slot."""
+    prog = ctx.prog
+    ci = prog.cls("PybindWrapper")
+    fn = prog.method("PybindWrapper", "_wrap_method")
+    tpl = find_tpl(ctx, fn, {"docstring", "py_args_names"})
+    if tpl is None:
+        raise AnalysisError("_wrap_method: template with a {docstring} slot not found")
+    # the local that holds the assembled binding
+    holder = None
+    for st in walk_no_nested(fn):
+        if isinstance(st, ast.Assign) and len(st.targets) == 1 and isinstance(st.targets[0], ast.Name) and \
+                any(isinstance(k, ast.keyword) and k.arg == "docstring" for c in ast.walk(st.value) if isinstance(c, ast.Call) for k in c.keywords):
+            holder = st.targets[0].id
+    if holder is None:
+        raise AnalysisError("_wrap_method: the assembled binding is not bound to a local")
+    n = 0
+
+    def judge(f, var, where):
+        nonlocal n
+        for c in walk_no_nested(f):
+            if isinstance(c, ast.Call) and isinstance(c.func, ast.Attribute) and isinstance(c.func.value, ast.Name) and c.func.value.id == var \
+                    and c.func.attr in ("replace", "translate", "expandtabs", "title", "lower", "upper", "strip", "format"):
+                n += 1
+                limited = c.func.attr == "replace" and len(c.args) == 3 and isinstance(c.args[2], ast.Constant) and c.args[2].value == 1
+                before = False
+                if limited and isinstance(c.args[0], ast.Constant) and isinstance(c.args[0].value, str):
+                    # the replaced text occurs in front of the docstring slot in the assembled binding
+                    lit = tpl.deep_literal("\x00")
+                    keys = [s.key for s in tpl.slots()]
+                    head = "".join(p if isinstance(p, str) else (p.sub.deep_literal("\x00") if p.sub is not None else "\x00")
+                                   for p in tpl.parts[:next(i for i, p in enumerate(tpl.parts) if not isinstance(p, str) and p.key == "docstring")])
+                    needle = c.args[0].value
+                    # text that can appear in front of the docstring: literal parts plus every string constant the
+                    # expressions bound to the earlier slots are built from (conditional pieces such as the caller)
+                    pieces = [head]
+
+                    def consts(e, depth=3):
+                        for x in ast.walk(e):
+                            if isinstance(x, ast.Constant) and isinstance(x.value, str):
+                                pieces.append(x.value)
+                            elif isinstance(x, ast.Name) and depth > 0:
+                                for st in local_assignments(fn).get(x.id, []):
+                                    if isinstance(st, ast.Assign):
+                                        consts(st.value, depth - 1)
+                    for p_ in tpl.parts:
+                        if not isinstance(p_, str):
+                            if p_.key == "docstring":
+                                break
+                            if p_.expr is not None:
+                                consts(p_.expr)
+                    before = any((len(x) >= 4 and needle.startswith(x)) or needle in x for x in pieces if x.strip())
+                rep.add(rid, f"{where}:{unparse(c.func)}({unparse(c.args[0])[:30] if c.args else ''}..) cannot reach the documentation text",
+                        limited and before,
+                        f"`{unparse(c)[:70]}` rewrites the whole binding text, documentation literal included: a docstring containing "
+                        f"{unparse(c.args[0]) if c.args else 'the pattern'} is altered (and the output with XML is no longer the output "
+                        f"without XML plus literals)", f"{ci.mod.rel}:{c.lineno}")
+            if isinstance(c, ast.Call) and unparse(c.func) in ("re.sub", "re.subn") and any(isinstance(a, ast.Name) and a.id == var for a in c.args):
+                n += 1
+                rep.add(rid, f"{where}:re.sub over the assembled binding", False, "a regular-expression rewrite of the whole binding text "
+                        "also rewrites the documentation literal", f"{ci.mod.rel}:{c.lineno}")
+    judge(fn, holder, "_wrap_method")
+    for c in walk_no_nested(fn):
+        if isinstance(c, ast.Call) and isinstance(c.func, ast.Attribute) and unparse(c.func.value) == "self":
+            pos = [i for i, a in enumerate(c.args) if isinstance(a, ast.Name) and a.id == holder]
+            kw = [k.arg for k in c.keywords if isinstance(k.value, ast.Name) and k.value.id == holder]
+            callee = prog.find_method(ci, c.func.attr)
+            if callee is None or not (pos or kw):
+                continue
+            ps = [a.arg for a in callee[1].args.args if a.arg != "self"]
+            for pn in [ps[i] for i in pos if i < len(ps)] + kw:
+                judge(callee[1], pn, c.func.attr)
+    rep.add(rid, "uses of the assembled binding text inspected", True, f"{n} whole-text operation(s)", f"{ci.mod.rel}:{fn.lineno}", nontrivial=False)
+    if n < 1:
+        raise AnalysisError(f"{rep.prop}/{rid}: the print() redirect rewrite was not found")
